@@ -102,8 +102,45 @@ def _bound(F, fn, o, defs, dec, depth=0):
     return None
 
 
-def features(F, fn):
-    """Structural features shared by the forward and inverse Gregorian computations."""
+def _local_cone(F, fn, depth=3):
+    """fn plus the bodies of the crate's own closures and private helpers it calls (the refactoring-invariant unit: extracting a
+    helper or moving a call into a closure must not change what is found)"""
+    out, seen, todo = [], set(), [(fn, 0)]
+    clos = [g for g in F.fns if g and g.get("def_kind") == "Closure" and "blocks" in g]
+    while todo:
+        f, d = todo.pop()
+        if id(f) in seen:
+            continue
+        seen.add(id(f))
+        out.append(f)
+        if d >= depth:
+            continue
+        for g in clos:
+            if g.get("path", "").startswith(f.get("path", "\0") + "::{closure"):
+                todo.append((g, d + 1))
+        for bi, t in cfg.calls(f):
+            fid = t["f"].get("fn_id")
+            g = F.fns[fid] if fid is not None else None
+            if g is not None and g.get("local") and "blocks" in g and g.get("vis") not in ("pub", "public") and \
+                    cfg.callee_name(t["f"]).split("::")[-1] not in ("is_leap_year", "gregorian_epoch_offset", "decompose", "maybe_from_gregorian",
+                                                                      "compute_gregorian", "is_gregorian_valid", "from_duration"):
+                todo.append((g, d + 1))
+    return out
+
+
+def features(F, fn0):
+    """Structural features shared by the forward and inverse Gregorian computations (collected over the function's local cone)."""
+    out = {"ranges": [], "leap_calls": 0, "tables": set(), "offset_calls": 0}
+    for fn in _local_cone(F, fn0):
+        f1 = _features1(F, fn)
+        out["ranges"] += f1["ranges"]
+        out["leap_calls"] += f1["leap_calls"]
+        out["tables"] |= f1["tables"]
+        out["offset_calls"] += f1["offset_calls"]
+    return out
+
+
+def _features1(F, fn):
     defs = cfg.unique_defs(fn)
     ranges = []
     for bi, si, s in cfg.stmts(fn):
@@ -142,8 +179,8 @@ def r2_siblings(chk, F):
     cg = F.find1(self_ty="Epoch", name="compute_gregorian", trait="")
     mf = F.find1(self_ty="Epoch", name="maybe_from_gregorian", trait="")
     a, b = features(F, cg), features(F, mf)
-    ra = sorted({tuple((e[0], e[1]) if e[0] == "const" else ("var", "year") if e[1] == "year" else e for e in r) for r in a["ranges"]})
-    rb = sorted({tuple((e[0], e[1]) if e[0] == "const" else ("var", "year") if e[1] == "year" else e for e in r) for r in b["ranges"]})
+    ra = sorted({tuple((e[0], e[1]) if e[0] == "const" else ("var", "year") for e in r) for r in a["ranges"]})
+    rb = sorted({tuple((e[0], e[1]) if e[0] == "const" else ("var", "year") for e in r) for r in b["ranges"]})
     want = sorted({(("const", 1900), ("var", "year")), (("var", "year"), ("const", 1900))})
     chk.ob(rule, "compute_gregorian~maybe_from_gregorian", "same-year-ranges(1900..year,year..1900)", ra == rb == want, "sibling agreement (Range aggregates)",
            detail=None if ra == rb == want else {"decompose": ra, "construct": rb})
